@@ -41,3 +41,6 @@ class Packet(ABC):
             writer (EoWriter): the writer that this packet will be written to.
         """
         raise NotImplementedError()
+
+
+__all__ = ['Packet']
